@@ -110,8 +110,11 @@ pub fn run(seed: u64, count: usize, outdir: &str, tier_budgets: &[usize]) -> std
         tape_len_hist: BTreeMap::new(), skipped_points: 0, points: 0, panics_small_budget: 0,
         distinct: Default::default(), samples: vec![] };
     let mut fails = 0;
+    let mut corpus = crate::dag::corpus();
+    corpus.reverse();
     for ci in 0..count {
         let mut r = rng.fork();
+        let from_corpus = corpus.pop();
         let cfg = DagCfg {
             max_ops: *r.pick(&[4, 10, 25, 60, 120]),
             max_outputs: *r.pick(&[1, 1, 2, 4, 8]),
@@ -121,12 +124,16 @@ pub fn run(seed: u64, count: usize, outdir: &str, tier_budgets: &[usize]) -> std
             p_special_const: *r.pick(&[0.05, 0.3]),
             ..Default::default()
         };
-        let dag = gen_dag(&mut r, &cfg);
+        let generated = gen_dag(&mut r, &cfg);
         let n = *r.pick(tier_budgets);
-        let nvars = 3 + dag.vs.len();
-        let npts = 4;
         let p_special = *r.pick(&[0.0, 0.2, 0.6]);
-        let points: Vec<Vec<f32>> = (0..npts).map(|_| gen_point(&mut r, nvars, p_special)).collect();
+        let (dag, points): (Dag, Vec<Vec<f32>>) = match from_corpus {
+            Some((d, pts)) => (d, pts),
+            None => { let nv = 3 + generated.vs.len(); let pts = (0..4).map(|_| gen_point(&mut r, nv, p_special)).collect(); (generated, pts) }
+        };
+        let n = if ci < 8 { [3usize, 255][ci % 2].max(*tier_budgets.iter().filter(|b| **b >= 3).min().unwrap_or(&3)) } else { n };
+        let nvars = 3 + dag.vs.len();
+        let npts = points.len();
 
         // reference evaluation (harness's own), oracle table, taint
         let mut orc = Oracle::default();
